@@ -255,6 +255,10 @@ fn c02_const_small_subtypes() {{
         for sp in row.get("spare", []):
             checks.append(f'    assert!(bytes[{sp - 2}] == 0, "{v}: spare byte at frame offset {sp} is zero");')
             covered.add(sp)
+        for off, ln in row.get("text", []):
+            checks.append(f'    {{ let mut i = 0; while i < {ln} {{ assert!(bytes[{off - 2} + i] == 0, '
+                          f'"{v}: the {ln}-byte text field at frame offset {off} is all NUL for the empty text"); i += 1; }} }}')
+            covered.update(range(off, off + ln))
         size = row["size"]
         hole = sorted(set(range(2, size)) - covered)
         # symbolic time fields are too expensive (K26): the harness keeps the constant the kind
@@ -263,7 +267,7 @@ fn c02_const_small_subtypes() {{
 //@ id: layout_{v.lower()}
 //@ prop: C02
 //@ functions: {it.file} <{ty} as BinWrite>::write_options
-//@ statement: {v} (type {row['type']}, {size} bytes): for ALL values of the symbolic fields the encoder places {', '.join(f'{p}@{o}' for p, o in sorted(row['fields'].items(), key=lambda kv: kv[1]))} at the specification's frame offsets (little endian, times at the specification's resolution), writes 0 into spare byte(s) {row.get('spare', [])} and {size - 2} body bytes in total{'; frame bytes without a table row: ' + str(hole) if hole else ''}{'; reported only (unsure): ' + ', '.join(report) if report else ''}
+//@ statement: {v} (type {row['type']}, {size} bytes{' with empty text' if row.get('text') or any(f.ty == 'String' for f in it.fields) else ''}): for ALL values of the symbolic fields the encoder places {', '.join(f'{p}@{o}' for p, o in sorted(row['fields'].items(), key=lambda kv: kv[1]))} at the specification's frame offsets (little endian, times at the specification's resolution), writes 0 into spare byte(s) {row.get('spare', [])} and {size - 2} body bytes in total{'; frame bytes without a table row: ' + str(hole) if hole else ''}{'; reported only (unsure): ' + ', '.join(report) if report else ''}
 //@ covers: 1
 //@ timeout: 900
 #[kani::proof]
